@@ -20,7 +20,8 @@ import numpy as np
 from ..contracts import attach, detach_all, quiet
 from ..core import REPO, max_err
 from ..polyhard import (cfg32, clear_caches, warm32, layouts, is_c_contig, contig, order_containers, coef_containers, foreign_traffic, high_orders, coord_forms,
-                        more_order_containers, term_containers, form_class, ORDER_FORMS, NM_FORMS, N_ONLY_FORMS, PARAM_FORMS, INT_PARAM_FORMS, SEQ_INT_COORDS, INT_HERMITE_MAX_ORDER)
+                        more_order_containers, term_containers, form_class, ORDER_FORMS, NM_FORMS, N_ONLY_FORMS, PARAM_FORMS, INT_PARAM_FORMS, SEQ_INT_COORDS, INT_HERMITE_MAX_ORDER,
+                        scales, ulps, special_class, near_special_jacobi, near_special_scalar, EXACT_SPECIAL_JACOBI, GENERIC_NEIGHBOURS_JACOBI, term_orderings, layout_patterns)
 from ..refmodels import diffops_poly as D
 from ..util import precision
 
@@ -43,7 +44,13 @@ RULE = ('one case = one call of a derivative routine for one (function, order/co
         'int64 / int32 / uint32 / uint64 / intp and in every accepted list container, (n, m) as numpy integers (unsigned for n only), j as numpy integers and omitted vs explicit, norm '
         'omitted vs explicit after the other explicit value; alpha, beta as numpy float64 / float32 / python int / numpy int64 incl. the lines alpha + beta = -1, 0 with alpha != beta for '
         'jacobi_der(_seq) and jacobi_sum_clenshaw_der; scalar coordinates (python float, numpy float64, 0-d) for the Clenshaw routines and evaluators; class F - every derivative routine '
-        'judged after unmonitored traffic through the shared tables from the value / fast-sum / change-of-basis / fit routines')
+        'judged after unmonitored traffic through the shared tables from the value / fast-sum / change-of-basis / fit routines. Hardening pass 3: class G - coefficient vectors scaled by 1e-12 ... 1e12 '
+        'through the three Clenshaw derivative routines (j = 1, 2; three (alpha, beta); m = 1, 2, 4) and the three sag-and-slope evaluators: each call judged by the ordinary oracle (tolerances '
+        'proportional to the size of the sum) and by the scale law f(s c) = s f(c) row by row; class H - shape parameters special only UP TO ROUNDING (alpha = 0.1 + 0.2, beta = -0.3; alpha + beta = '
+        '-1 +- 1 ulp; one ulp from 0, +-1/2, an integer; alpha -> -1), exactly special ones and generic neighbours for jacobi_der, jacobi_der_seq, jacobi_sum_clenshaw_der, laguerre_der(_seq); '
+        'evaluation points exactly at 0, -0.0, +-1, the ends of each domain and one ulp inside (arrays, each point alone as python float / 0-d / length-1) for every *_der / *_der_seq, the Clenshaw '
+        'routines and evaluators at x = -1, 0, 1 / u = 0, 1, zernike_nm_der on the axis (|m| = 0, 1, 2; n = |m| and n > |m|) and the rim as arrays / 0-d / length-1 / python floats; class I - EVERY '
+        'pattern of empty / length-1 / length-5 coefficient lists over m = 0 .. 4 (243 layouts) through compute_z_zprime_Q2d, every ordering of the term list of zernike_nm_der_seq')
 ASSUMPTIONS = ['the value routines are what is being differentiated (their own correctness is C07/C10)',
                'Chebyshev interpolation at >= degree+3 nodes is exact for polynomials; trigonometric interpolation at '
                '> 2*degree nodes is exact for trigonometric polynomials; complex step is exact to round-off for analytic f',
@@ -57,13 +64,17 @@ ASSUMPTIONS = ['the value routines are what is being differentiated (their own c
                'argument forms (class E): the accepted forms are DATA established on /repo @ faa8443 (vp/polyhard.py): integer ndarray coordinates of the Clenshaw routines / sag-and-slope '
                'evaluators / most *_der_seq (work arrays are allocated in the coordinate dtype), zernike_nm_der at an integer radius with n == |m| (raises today), unsigned m, 0-d array orders '
                'are out of domain; the derivative at a complex point is the derivative of the polynomial\'s analytic continuation',
-               'emptying prysm\'s memo tables (functools cache_clear, where a helper offers it) never changes what a correct library returns']
+               'emptying prysm\'s memo tables (functools cache_clear, where a helper offers it) never changes what a correct library returns',
+               'value and derivative routines are smooth in the shape parameters: parameters special only up to rounding are judged at the ordinary tolerance; a failure that disappears at the exactly '
+               'special neighbour (whose derivative differs by a rounding error of the parameters) is keyed .../special:<line>',
+               'the Clenshaw derivative tables and the sag-and-slope evaluators are linear in the coefficients: f(s c) = s f(c) to 1e-10 of the size of the row for s = 1e-12 ... 1e12 (s c is rounded once)']
 REQUIRED = ['alias.result-stable', 'der1d', 'der_seq', 'zernike_nm_der.dr', 'zernike_nm_der.dt', 'zernike_nm_der_seq',
             'jacobi_sum_clenshaw_der.rows', 'clenshaw_qbfs_der.rows', 'clenshaw_q2d_der.rows',
             'compute_z_zprime_Qbfs.slope', 'compute_z_zprime_Qcon.slope', 'compute_z_zprime_Q2d.dr',
             'compute_z_zprime_Q2d.dt', 'surfaces.sag_der', 'der_direction_cosine_spheroid',
             'off_axis_conic_der', 'off_axis_conic_sigma_der', 'Q2d_and_der.dr', 'Q2d_and_der.dt', 'Surface.normal',
-            'classD.very-high-orders', 'classE.argument-forms', 'classF.foreign-traffic']
+            'classD.very-high-orders', 'classE.argument-forms', 'classF.foreign-traffic',
+            'classG.scale-laws', 'classH.special-parameters', 'classH.special-points', 'classI.orderings', 'classI.layouts']
 
 CTX = None
 TOL = 1e-8
@@ -132,7 +143,7 @@ def sup(a):
 
 
 def judge(monitor, got, ref, unc, key, what, desc, refsup=0.0, fsup=0.0, dscale=1.0, rtol=TOL, inner=False,
-          blamed=False, recheck=None, coords=(), form=None, canonical=None, **detail):
+          blamed=False, recheck=None, coords=(), form=None, canonical=None, special=None, **detail):
     """|got-ref| <= rtol*sup|ref| + 1e-10*fsup*dscale, provided the oracle's own uncertainty is 100x smaller."""
     ctx = CTX
     ref = np.asarray(ref)
@@ -157,8 +168,24 @@ def judge(monitor, got, ref, unc, key, what, desc, refsup=0.0, fsup=0.0, dscale=
     if blamed:
         ctx.event('enclosing-evaluator-mismatch-blamed-on-inner-contract:' + monitor)
         return False
-    mech = mechanism(recheck, coords)
-    if mech:
+    attributed = False
+    if special is not None:
+        # class H attribution (tried FIRST: it is the most specific label, and a failure at the edge of such a regime - error within 10x of the tolerance - would otherwise be
+        # labelled by the looser repeat test below): the shape parameters are special only up to rounding and the routine is right at the exactly special neighbour (whose
+        # derivative differs from the reference by a rounding error of the parameters) -> the defect lives in that narrow parameter regime.
+        # special = (full key, thunk evaluating the routine at the neighbour)
+        try:
+            with quiet(), np.errstate(all='ignore'):
+                g2 = np.asarray(special[1]())
+                if g2.shape == ref.shape and max_err(g2, ref) <= tol:
+                    key = special[0]
+                    attributed = True
+        except Exception:  # noqa
+            pass
+    mech = '' if attributed else mechanism(recheck, coords)
+    if attributed:
+        pass
+    elif mech:
         key = key + '/' + mech
     elif form and canonical is not None:
         # class E attribution: right for the canonical form of the same input -> the defect is specific to this argument form
@@ -362,11 +389,16 @@ def post_jacobi_sum_clenshaw_der(token, args, kwargs, result):
         if jj >= neff:      # derivative of order > degree: identically zero
             ref, unc, refsup = np.zeros(x.shape), 0.0, 0.0
         key = 'C09/jacobi_sum_clenshaw_der/' + rowclass(jj, j, n) + ('/f32' if f32 else '')
+        sp = special_class((float(al), float(be)))
+        special = None
+        if sp is not None and sp[1] is not None:
+            special = (f'C09/jacobi_sum_clenshaw_der/special:{sp[0]}' + ('/f32' if f32 else ''),
+                       lambda jj=jj, nb=sp[1]: np.asarray(ORIG['jacobi_sum_clenshaw_der'](a['s'], nb[0], nb[1], a['x'], j=j))[jj][0])
         judge('jacobi_sum_clenshaw_der.rows', got, ref, unc, key,
-              f'jacobi_sum_clenshaw_der(j={j}): alphas[{jj}][0] is not the derivative of order {jj} of sum s_n P_n', desc,
+              f'jacobi_sum_clenshaw_der(j={j}): alphas[{jj}][0] is not the derivative of order {jj} of sum s_n P_n', desc, special=special,
               refsup=refsup, fsup=fsup, dscale=(2 / (hi - lo)) ** jj, inner=True, row=jj,
               rtol=TOL32C if f32 else (TOL if jj <= 2 else 10 * TOL),     # rounding of high-order recurrences grows like degree^(2 jj)
-              recheck=rerun(ORIG['jacobi_sum_clenshaw_der'], args, kwargs, jj, ref, refsup, fsup * (2 / (hi - lo)) ** jj, lambda r_: r_[jj][0]), coords=[a['x']])
+              recheck=rerun(ORIG['jacobi_sum_clenshaw_der'], args, kwargs, jj, ref, refsup, fsup * (2 / (hi - lo)) ** jj, lambda r_, jj=jj: r_[jj][0]), coords=[a['x']])
 
 
 def post_clenshaw_qbfs_der(token, args, kwargs, result):
@@ -1135,7 +1167,7 @@ def spectral_at(sample, lo, hi, z, k=1, K=8, extra=4):
     return db, np.abs(db - out[0][0]), refsup, sup(vb)
 
 
-def der_check(name, val, der, n, x, x0, lo, hi, desc, f32=False, hist=None, form=None, canonical=None, keyname=None):
+def der_check(name, val, der, n, x, x0, lo, hi, desc, f32=False, hist=None, form=None, canonical=None, keyname=None, special=None):
     """der(n, x) (x: the object handed to the routine) against d/dx of val(n, .) at the PRISTINE coordinate values x0 (float or complex)."""
     def once(xx):
         got = der(n, xx)
@@ -1150,10 +1182,10 @@ def der_check(name, val, der, n, x, x0, lo, hi, desc, f32=False, hist=None, form
         return g2.shape == r2.shape and max_err(g2, r2) <= 10 * ((TOL32 if f32 else TOL) * max(rs2, sup(r2)) + 1e-10 * fs2 * 2 / (hi - lo))
     key = f'C09/{name}_der/{keyname or ("n=0" if n == 0 else "n>=1")}' + ('/f32' if f32 else '')
     return judge('der1d', got, ref, unc, key, f'{name}_der(n) is not d/dx of {name}(n)', desc, refsup=refsup, fsup=fsup, dscale=2 / (hi - lo),
-                 rtol=TOL32 if f32 else TOL, recheck=recheck, coords=[x] if isinstance(x, np.ndarray) else [], form=form, canonical=canonical)
+                 rtol=TOL32 if f32 else TOL, recheck=recheck, coords=[x] if isinstance(x, np.ndarray) else [], form=form, canonical=canonical, special=special)
 
 
-def der_seq_check(name, val, dseq, ns, cont, x, x0, lo, hi, desc, f32=False, form=None, canonical=None, keyname=None, reusable=True):
+def der_seq_check(name, val, dseq, ns, cont, x, x0, lo, hi, desc, f32=False, form=None, canonical=None, keyname=None, reusable=True, special=None):
     got = np.asarray(dseq(cont, x))
     want = (len(ns),) + np.shape(x0)
     CTX.observe('der_seq')
@@ -1170,7 +1202,8 @@ def der_seq_check(name, val, dseq, ns, cont, x, x0, lo, hi, desc, f32=False, for
         judge('der_seq', got[row], ref, unc, f'C09/{name}_der_seq/{keyname or ("n=0" if n == 0 else "n>=1")}' + ('/f32' if f32 else ''),
               f'{name}_der_seq row for order n is not d/dx of {name}(n)', desc, refsup=refsup, fsup=fsup, dscale=2 / (hi - lo), row=row, n=n,
               rtol=TOL32 if f32 else TOL, recheck=recheck if reusable else None, coords=[x], form=form,
-              canonical=(lambda row=row: np.asarray(canonical())[row]) if canonical is not None else None)
+              canonical=(lambda row=row: np.asarray(canonical())[row]) if canonical is not None else None,
+              special=(special[0], (lambda row=row: np.asarray(special[1]())[row])) if special is not None else None)
 
 
 def fam_table():
@@ -1998,6 +2031,288 @@ def foreign_units(ctx):
                         u, t, 0.0, 1.0, deg + 4, 2 * mmax + 4, desc, f'C09/compute_z_zprime_Q2d/{lab}', lab)
 
 
+# ------------------------------------------------------------------------------------------ hardening pass 3 (HARDENING3.md G, H, I)
+def regime(s):
+    return 'tiny' if s < 1 else ('huge' if s > 1 else 'unit')
+
+
+def scale_units(ctx):
+    """Class G: the Clenshaw derivative tables and the sag-and-slope evaluators are LINEAR in the coefficients - coefficient vectors scaled by 1e-12 ... 1e12 (not powers of two:
+    s * c is rounded like any user input).  Every call is judged by the ordinary oracle (the contracts' / evaluators' tolerances are proportional to the size of the sum, so a
+    tiny regime is judged as strictly as a unit one) and by the scale law  f(s c) = s f(c)  row by row, relative to the size of the row.  The evaluation points include both
+    ends of the domain and 0 (class H)."""
+    from prysm.polynomials import jacobi_sum_clenshaw_der
+    from prysm.polynomials.qpoly import clenshaw_qbfs_der, clenshaw_q2d_der, compute_z_zprime_Qbfs, compute_z_zprime_Qcon, compute_z_zprime_Q2d
+    rng = case_rng('scale')
+    x = np.array([-1.0, -0.8125, -0.21875, 0.0, 0.34375, 1.0])
+    u = np.array([0.0, 0.09375, 0.40625, 0.65625, 1.0])
+    t = np.array([0.5, 1.75, 3.0, 5.5, 0.0])
+    ctx = CTX
+    for L in (1, 2, 5, 9) + CTX.pick((), (3, 19)):
+        c0 = [float(v) for v in rng.normal(size=L)]
+        a0 = [float(v) for v in rng.normal(size=max(1, L - 1))]
+        b0 = [float(v) for v in rng.normal(size=L + 1)]
+        base = {}
+        for s in (1.0,) + tuple(scales(CTX.quick)):
+            reg = regime(s)
+            cs, as_, bs = [v * s for v in c0], [v * s for v in a0], [v * s for v in b0]
+            arr = (lambda v: np.array(v)) if L % 2 else (lambda v: list(v))
+
+            def law(fn, tag, tables, desc):
+                """tables: tuple of arrays, each linear in the coefficients"""
+                if s == 1.0:
+                    base[(fn, tag)] = [np.array(v, dtype=float, copy=True) for v in tables]
+                    return
+                ref = base.get((fn, tag))
+                if ref is None:
+                    return
+                for k, (g, r0) in enumerate(zip(tables, ref)):
+                    g, r0 = np.asarray(g, dtype=float), s * r0
+                    rows = range(g.shape[0]) if (g.ndim >= 2 and fn.endswith('_der')) else [None]
+                    for row in rows:
+                        gg, rr = (g, r0) if row is None else (g[row], r0[row])
+                        ctx.close('classG.scale-laws', gg, rr, f'C09/{fn}/scale:{reg}', f'{fn}: the result for coefficients scaled by s is not s times the result for the unscaled coefficients (the routine is linear in them)',
+                                  dict(desc, output=k, row=row), rtol=1e-10, atol=1e-300, scale=sup(rr))
+            for j in (1, 2):
+                for (al, be) in ((0.3, 1.2), (-0.25, -0.75), (0, 4)):
+                    desc = {'fn': 'jacobi_sum_clenshaw_der', 'len': L, 'j': j, 'alpha': al, 'beta': be, 'scale': s, 'class': f'jacobi_sum_clenshaw_der:scale:{reg}'}
+                    ctx.case(desc)
+                    with guard('jacobi_sum_clenshaw_der', desc, lenlabel=lenclass(L), jlabel=jclass(j, L)):
+                        law('jacobi_sum_clenshaw_der', (j, al, be), (jacobi_sum_clenshaw_der(arr(cs), al, be, x, j=j),), desc)
+                desc = {'fn': 'clenshaw_qbfs_der', 'len': L, 'j': j, 'scale': s, 'class': f'clenshaw_qbfs_der:scale:{reg}'}
+                ctx.case(desc)
+                with guard('clenshaw_qbfs_der', desc, lenlabel=lenclass(L), jlabel=jclass(j, L)):
+                    law('clenshaw_qbfs_der', j, (clenshaw_qbfs_der(arr(cs), u * u, j=j),), desc)
+                for m in (1, 2, 4):
+                    desc = {'fn': 'clenshaw_q2d_der', 'len': L, 'j': j, 'm': m, 'scale': s, 'class': f'clenshaw_q2d_der:scale:{reg}'}
+                    ctx.case(desc)
+                    with guard('clenshaw_q2d_der', desc, lenlabel=lenclass(L), jlabel=jclass(j, L)):
+                        law('clenshaw_q2d_der', (j, m), (clenshaw_q2d_der(arr(cs), m, u * u, j=j),), desc)
+            for which, fn in (('Qbfs', compute_z_zprime_Qbfs), ('Qcon', compute_z_zprime_Qcon)):
+                desc = {'fn': f'compute_z_zprime_{which}', 'len': L, 'scale': s, 'class': f'compute_z_zprime_{which}:scale:{reg}'}
+                ctx.case(desc)
+                slope_check(f'compute_z_zprime_{which}.slope', f'compute_z_zprime_{which}', lambda U: fn(arr(cs), U, U * U), u, desc, f'C09/compute_z_zprime_{which}/slope/{lenclass(L)}', 2 * L + 4, lenclass(L))
+                with guard(f'compute_z_zprime_{which}', desc, lenlabel=lenclass(L), jlabel='j>=len' if L == 1 else 'j=1'):
+                    law(f'compute_z_zprime_{which}', 0, fn(arr(cs), u, u * u), desc)
+            cm0, ams, bms = cs, [as_, bs], [bs, as_]
+            deg, mmax = q2d_degree(cm0, ams, bms)
+            lab = 'list-len1' if L <= 2 else 'regular'
+            desc = {'fn': 'compute_z_zprime_Q2d', 'len': L, 'scale': s, 'class': f'compute_z_zprime_Q2d:scale:{reg}'}
+            ctx.case(desc)
+            polar_check('compute_z_zprime_Q2d', 'compute_z_zprime_Q2d', lambda R, T: compute_z_zprime_Q2d(list(cm0), [list(a) for a in ams], [list(b) for b in bms], R, T),
+                        u, t, 0.0, 1.0, deg + 4, 2 * mmax + 4, desc, f'C09/compute_z_zprime_Q2d/{lab}', lab)
+            with guard('compute_z_zprime_Q2d', desc, lenlabel=lab, jlabel='j=1'):
+                law('compute_z_zprime_Q2d', 0, compute_z_zprime_Q2d(list(cm0), [list(a) for a in ams], [list(b) for b in bms], u, t), desc)
+
+
+def special_parameter_units(ctx):
+    """Class H, shape parameters special only UP TO ROUNDING (alpha = 0.1 + 0.2, beta = -0.3; alpha + beta = -1 +- 1 ulp; one ulp from 0, +-1/2, an integer; alpha -> -1), the
+    exactly special ones and clearly generic neighbours, for jacobi_der, jacobi_der_seq, jacobi_sum_clenshaw_der (judged by its contract), laguerre_der, laguerre_der_seq; the
+    evaluation points include 0 and both ends of the domain.  The oracle differentiates the VALUE routine at the same parameters, and both are smooth in them: the ordinary
+    tolerance applies.  A failure that disappears at the exactly special neighbour is keyed .../special:<line>."""
+    from prysm import polynomials as p
+    rng = case_rng('special-parameters')
+    x = np.array([-1.0, -0.5625, 0.0, 0.40625, 1.0])
+    cases = [('special:' + c, ab, nb) for c, ab, nb in near_special_jacobi(not CTX.quick)] + [('exactly-special', ab, None) for ab in EXACT_SPECIAL_JACOBI] + \
+            [('generic-neighbour', ab, None) for ab in GENERIC_NEIGHBOURS_JACOBI]
+    for cls, (al, be), nb in cases:
+        sp = special_class((al, be))
+        for n in CTX.pick((0, 1, 2, 3, 5, 8), tuple(range(10)) + (12, 19)):
+            desc = {'fn': 'jacobi_der', 'n': n, 'params': [repr(al), repr(be)], 'pclass': cls, 'class': f'jacobi_der:{cls}'}
+            ctx.case(desc)
+            ctx.observe('classH.special-parameters')
+            with guard('jacobi_der', desc, lenlabel='n=0' if n == 0 else 'n>=1'):
+                special = (f'C09/jacobi_der/special:{sp[0]}', lambda n=n: p.jacobi_der(n, nb[0], nb[1], x)) if (sp and nb) else None
+                der_check('jacobi', lambda k, xx: p.jacobi(k, al, be, xx), lambda k, xx: p.jacobi_der(k, al, be, xx), n, x, x, -1.0, 1.0, desc, special=special)
+        for ns in ([0, 1, 2, 3], [1], [2, 5], [0], [0, 1, 2, 3, 4, 5, 6, 7, 8]):
+            desc = {'fn': 'jacobi_der_seq', 'ns': ns, 'params': [repr(al), repr(be)], 'pclass': cls, 'class': f'jacobi_der_seq:{cls}'}
+            ctx.case(desc)
+            with guard('jacobi_der_seq', desc, lenlabel='seq'):
+                special = (f'C09/jacobi_der_seq/special:{sp[0]}', lambda ns=ns: p.jacobi_der_seq(ns, nb[0], nb[1], x)) if (sp and nb) else None
+                der_seq_check('jacobi', lambda k, xx: p.jacobi(k, al, be, xx), lambda o, xx: p.jacobi_der_seq(o, al, be, xx), ns, ns, x, x, -1.0, 1.0, desc, special=special)
+        for L in (1, 2, 3, 6):
+            c0 = [float(v) for v in rng.normal(size=L)]
+            for j in (1, 2):
+                desc = {'fn': 'jacobi_sum_clenshaw_der', 'len': L, 'j': j, 'params': [repr(al), repr(be)], 'pclass': cls, 'class': f'jacobi_sum_clenshaw_der:{cls}'}
+                ctx.case(desc)
+                with guard('jacobi_sum_clenshaw_der', desc, lenlabel=lenclass(L), jlabel=jclass(j, L)):
+                    p.jacobi_sum_clenshaw_der(c0 if L % 2 else np.array(c0), al, be, x, j=j)
+    xl = np.array([0.0, 0.59375, 2.25, 5.5, 8.0])
+    for cls, al in [('special:alpha~k/2', v) for c, v, sp_ in near_special_scalar([0.0, 0.5, -0.5, 1.0, 2.0], lower=-1.0, thorough=not CTX.quick)] + [('exactly-special', v) for v in (0.0, 0.5, -0.5, 1.0)]:
+        sp = special_class((al,))
+        for n in (0, 1, 2, 3, 5, 8):
+            desc = {'fn': 'laguerre_der', 'n': n, 'params': repr(al), 'pclass': cls, 'class': f'laguerre_der:{cls}'}
+            ctx.case(desc)
+            ctx.observe('classH.special-parameters')
+            with guard('laguerre_der', desc, lenlabel='n=0' if n == 0 else 'n>=1'):
+                special = ('C09/laguerre_der/special:alpha~k/2', lambda n=n: p.laguerre_der(n, sp[1][0], xl)) if sp else None
+                der_check('laguerre', lambda k, xx: p.laguerre(k, al, xx), lambda k, xx: p.laguerre_der(k, al, xx), n, xl, xl, 0.0, 8.0, desc, special=special)
+        for ns in ([0, 1, 2, 3], [1], [2, 5], [0]):
+            desc = {'fn': 'laguerre_der_seq', 'ns': ns, 'params': repr(al), 'pclass': cls, 'class': f'laguerre_der_seq:{cls}'}
+            ctx.case(desc)
+            with guard('laguerre_der_seq', desc, lenlabel='seq'):
+                special = ('C09/laguerre_der_seq/special:alpha~k/2', lambda ns=ns: p.laguerre_der_seq(ns, sp[1][0], xl)) if sp else None
+                der_seq_check('laguerre', lambda k, xx: p.laguerre(k, al, xx), lambda o, xx: p.laguerre_der_seq(o, al, xx), ns, ns, xl, xl, 0.0, 8.0, desc, special=special)
+
+
+def special_point_units(ctx):
+    """Class H, evaluation points exactly at 0 / -0.0 / +-1 / the ends of the domain and one ulp inside them, as whole arrays, each point alone (length-1 array, 0-d array, python
+    float) for every *_der; arrays for *_der_seq incl. lists containing only order 0; the Clenshaw derivative routines and the sag-and-slope evaluators at x = -1, 0, 1 /
+    u = 0, 1 (arrays, 0-d, length-1); zernike_nm_der on the axis (r = 0 with |m| = 0, 1, 2, n = |m| and n > |m|) and on the rim, 0-d / length-1 / python floats."""
+    from prysm import polynomials as p
+    from prysm.polynomials import zernike_nm, zernike_nm_der, jacobi_sum_clenshaw_der
+    from prysm.polynomials.qpoly import clenshaw_qbfs_der, clenshaw_q2d_der, compute_z_zprime_Qbfs, compute_z_zprime_Qcon, compute_z_zprime_Q2d
+    rng = case_rng('special-points')
+    for name, plist, make, lo, hi, seq2d in families():
+        pv = fixed_params(name, plist, 2)
+        val, der, dseq = make(pv)
+        pts = [lo, hi, 0.0, -0.0, ulps(lo, 1), ulps(hi, -1)] + ([1.0, -1.0] if lo < -1 else []) + ([1.0] if name == 'laguerre' else [])
+        xa = np.array(pts)
+        for n in (0, 1, 2, 3, 7, 12):
+            desc = {'fn': name + '_der', 'n': n, 'params': pv, 'x': 'array-of-special-points', 'class': f'{name}_der:special-points:array'}
+            ctx.case(desc)
+            ctx.observe('classH.special-points')
+            with guard(name + '_der', desc, lenlabel='n=0' if n == 0 else 'n>=1'):
+                der_check(name, val, der, n, xa, xa, lo, hi, desc, keyname='special-points' if n else None)
+            if n > 3:
+                continue
+            for v in pts:
+                for form, xv in (('pyfloat', float(v)), ('0d', np.array(float(v))), ('len1', np.array([float(v)]))):
+                    desc = {'fn': name + '_der', 'n': n, 'params': pv, 'x': form, 'point': repr(v), 'class': f'{name}_der:special-points:{form}'}
+                    ctx.case(desc)
+                    with guard(name + '_der', desc, lenlabel='n=0' if n == 0 else 'n>=1'):
+                        der_check(name, val, der, n, xv, np.asarray(float(v)).reshape(np.shape(xv)), lo, hi, desc, keyname='special-points' if n else None)
+        for ns in ([0], [0, 1], [1, 2, 5], [0, 3, 12]):
+            for form, xv in (('array', xa), ('len1:end', xa[:1]), ('len1:zero', np.array([0.0]))):
+                desc = {'fn': name + '_der_seq', 'ns': ns, 'params': pv, 'x': form, 'class': f'{name}_der_seq:special-points:{form}'}
+                ctx.case(desc)
+                with guard(name + '_der_seq', desc, lenlabel='seq'):
+                    der_seq_check(name, val, dseq, ns, ns, xv, xv, lo, hi, desc)
+    xj = np.array([-1.0, 0.0, 1.0, -0.0])
+    uq = np.array([0.0, 1.0, 0.25, ulps(1.0, -1)])
+    for L in (1, 2, 4, 9):
+        c0 = [float(v) for v in rng.normal(size=L)]
+        for form, xv, uv in (('array', xj, uq), ('0d:lo', np.array(-1.0), np.array(0.0)), ('0d:hi', np.array(1.0), np.array(1.0)), ('len1:zero', np.array([0.0]), np.array([0.0])), ('2d', xj.reshape(2, 2), uq.reshape(2, 2))):
+            for j in (1, 2):
+                desc = {'fn': 'clenshaw-der', 'len': L, 'j': j, 'x': form, 'class': f'clenshaw-der:special-points:{form.split(":")[0]}'}
+                ctx.case(desc)
+                ctx.observe('classH.special-points')
+                with guard('jacobi_sum_clenshaw_der', desc, lenlabel=lenclass(L), jlabel=jclass(j, L)):
+                    jacobi_sum_clenshaw_der(c0, 0.3, 1.2, xv, j=j)
+                    jacobi_sum_clenshaw_der(c0, -0.5, 0.5, xv, j=j)
+                with guard('clenshaw_qbfs_der', desc, lenlabel=lenclass(L), jlabel=jclass(j, L)):
+                    clenshaw_qbfs_der(c0, uv, j=j)
+                with guard('clenshaw_q2d_der', desc, lenlabel=lenclass(L), jlabel=jclass(j, L)):
+                    clenshaw_q2d_der(c0, 1, uv, j=j)
+                    clenshaw_q2d_der(c0, 3, uv, j=j)
+            uu = np.sqrt(uv)
+            for which, fn in (('Qbfs', compute_z_zprime_Qbfs), ('Qcon', compute_z_zprime_Qcon)):
+                desc = {'fn': f'compute_z_zprime_{which}', 'len': L, 'x': form, 'class': f'compute_z_zprime_{which}:special-points:{form.split(":")[0]}'}
+                ctx.case(desc)
+                slope_check(f'compute_z_zprime_{which}.slope', f'compute_z_zprime_{which}', lambda U: fn(list(c0), U, U * U), uu, desc, f'C09/compute_z_zprime_{which}/slope/{lenclass(L)}', 2 * L + 4, lenclass(L))
+            cm0, ams, bms = c0, [c0[:max(1, L // 2)], c0], [c0, c0[:max(1, L // 3)]]
+            deg, mmax = q2d_degree(cm0, ams, bms)
+            lab = 'list-len1' if L <= 3 else 'regular'
+            desc = {'fn': 'compute_z_zprime_Q2d', 'len': L, 'x': form, 'class': f'compute_z_zprime_Q2d:special-points:{form.split(":")[0]}'}
+            ctx.case(desc)
+            polar_check('compute_z_zprime_Q2d', 'compute_z_zprime_Q2d', lambda R, T: compute_z_zprime_Q2d(list(cm0), [list(a) for a in ams], [list(b) for b in bms], R, T),
+                        uu, np.full(np.shape(uu), 1.25), 0.0, 1.0, deg + 4, 2 * mmax + 4, desc, f'C09/compute_z_zprime_Q2d/{lab}', lab)
+    for n, m in ((1, 1), (1, -1), (3, 1), (3, -1), (2, 0), (2, 2), (4, -2), (0, 0), (5, 1), (7, -1), (3, 3), (19, 1)):
+        for norm in (True, False):
+            for form, r, t in (('array', np.array([0.0, 0.0, 1.0, 1.0, ulps(1.0, -1), 2.0 ** -30]), np.array([0.0, 1.25, 0.0, np.pi / 2, np.pi, 3.0])), ('0d:axis', np.array(0.0), np.array(1.25)),
+                               ('len1:axis', np.array([0.0]), np.array([2.0])), ('pyfloat:axis', 0.0, 1.25), ('0d:rim', np.array(1.0), np.array(0.5)), ('pyfloat:rim', 1.0, 0.0)):
+                desc = {'fn': 'zernike_nm_der', 'n': n, 'm': m, 'norm': norm, 'x': form, 'class': f'zernike_nm_der:special-points:{form.split(":")[0]}:{mclass(m)}'}
+                ctx.case(desc)
+                with guard('zernike_nm_der', desc, lenlabel=mclass(m)):
+                    dr, dt = zernike_nm_der(n, m, r, t, norm=norm)
+                    with quiet():
+                        (rr, ur, rs, fs), (rt_, ut, ts, fs2) = zernike_oracle(zernike_nm, n, m, np.asarray(r, dtype=float), np.asarray(t, dtype=float), norm)
+                    judge('zernike_nm_der.dr', dr, rr, ur, f'C09/zernike_nm_der/dr/{mclass(m)}', 'zernike_nm_der: dZ/dr on the axis / rim is not the radial derivative of zernike_nm', desc, refsup=rs, fsup=fs, dscale=2.0)
+                    judge('zernike_nm_der.dt', dt, rt_, ut, f'C09/zernike_nm_der/dt/{mclass(m)}', 'zernike_nm_der: dZ/dt on the axis / rim is not the azimuthal derivative of zernike_nm', desc, refsup=ts, fsup=fs2, dscale=1.0)
+
+
+def layout_label(cm0, ams, bms):
+    """Mechanism class of a coefficient-set layout: its most specific hostile feature."""
+    lists = list(ams) + list(bms)
+    pop = [i for i in range(max(len(ams), len(bms))) if (i < len(ams) and len(ams[i])) or (i < len(bms) and len(bms[i]))]
+    inner_gap = any(i not in pop for i in range(pop[-1])) if pop else False
+    if inner_gap:
+        return 'empty-azimuthal-order-between-populated-ones'
+    if any((len(a) == 0) != (len(b) == 0) for a, b in zip(ams, bms)):
+        return 'empty-list'
+    if any(len(v) == 1 for v in lists):
+        return 'list-len1'
+    if len(cm0) == 1:
+        return 'len1'
+    return 'regular'
+
+
+def coef_layout_units(ctx, part, nparts):
+    """Class I, coefficient-set layouts: EVERY pattern of empty / length-1 / length-5 lists (length 5 at m = 1: the N > 2 branch with a non-zero correction of sag AND slope) over the azimuthal orders m = 0 .. 4 (3^5 = 243 patterns; the sine lists carry the
+    cosine pattern rotated by one order, so that one family may be absent where the other is populated) through compute_z_zprime_Q2d: both slopes against the derivatives of the
+    sag the same call returns, at points that include the axis and the rim."""
+    from prysm.polynomials.qpoly import compute_z_zprime_Q2d
+    u = np.array([0.0, 0.21875, 0.53125, 0.84375, 1.0])
+    t = np.array([0.5, 1.75, 3.0, 5.5, 0.0])
+    for pi, pat in enumerate(layout_patterns(5)):
+        if pi % nparts != part:
+            continue
+        rng = case_rng('layout-pattern', pi)
+
+        def mk(c):
+            return [] if c == 'e' else [float(v) for v in rng.normal(size=1 if c == '1' else 5)]
+        cm0 = mk(pat[0])
+        ams = [mk(c) for c in pat[1:]]
+        rot = pat[2:] + pat[1:2]
+        bms = [mk(c) for c in (rot if pi % 2 else pat[1:])]
+        lab = layout_label(cm0, ams, bms)
+        deg, mmax = q2d_degree(cm0 or [0.0], ams, bms)
+        desc = {'fn': 'compute_z_zprime_Q2d', 'pattern': ''.join(pat), 'sine-pattern': 'rotated' if pi % 2 else 'same', 'lens': [len(cm0), [len(a) for a in ams], [len(b) for b in bms]],
+                'class': f'compute_z_zprime_Q2d:layout:{lab}'}
+        ctx.case(desc, nontrivial=any(c != 'e' for c in pat))
+        ctx.observe('classI.layouts')
+        polar_check('compute_z_zprime_Q2d', 'compute_z_zprime_Q2d', lambda R, T: compute_z_zprime_Q2d(list(cm0), [list(a) for a in ams], [list(b) for b in bms], R, T),
+                    u, t, 0.0, 1.0, deg + 4, 2 * 4 + 4, desc, f'C09/compute_z_zprime_Q2d/{lab}', {'list-len1': 'list-len1', 'len1': 'len1', 'empty-list': 'empty-list'}.get(lab, 'regular'))
+
+
+def ordering_units(ctx):
+    """Class I, every ordering of the term list of zernike_nm_der_seq (ascending, descending, grouped by |m|, radial orders non-ascending inside each |m| group, shuffles, all
+    permutations of small same-|m| groups): each row pair against the derivatives of zernike_nm for the term requested at that position."""
+    import itertools
+    from prysm.polynomials import zernike_nm, zernike_nm_der_seq
+    rng = np.random.default_rng([CTX.seed, 9109])
+    zset = [(n, m) for n in range(CTX.pick(5, 8)) for m in range(-n, n + 1, 2)]
+    jobs = [(lab, o) for lab, o in term_orderings(zset, rng, CTX.pick(2, 6))]
+    for am in (0, 1, 2):
+        for perm in itertools.permutations([(am + 2 * j, am) for j in range(3)]):
+            jobs.append(('permutation-of-one-|m|-group', list(perm)))
+            if am:
+                jobs.append(('permutation-of-one-|m|-group-mixed-signs', [(n, m if i % 2 else -m) for i, (n, m) in enumerate(perm)] + [(perm[0][0], -am)]))
+    r = np.array([0.0, 0.09375, 0.40625, 0.65625, 1.0])
+    t = np.array([0.5, 1.75, 3.0, 5.5, 0.0])
+    oracle = {}
+    for i, (lab, lst) in enumerate(jobs):
+        norm = bool(i % 2)
+        desc = {'fn': 'zernike_nm_der_seq', 'ordering': lab, 'nms': lst[:10], 'k': len(lst), 'norm': norm, 'class': f'zernike_nm_der_seq:ordering:{lab}'}
+        ctx.case(desc)
+        ctx.observe('classI.orderings')
+        with guard('zernike_nm_der_seq', desc, lenlabel='seq'):
+            got = np.asarray(zernike_nm_der_seq(lst if i % 3 else np.array(lst), r, t, norm=norm))
+            ctx.observe('zernike_nm_der_seq')
+            if got.shape != (len(lst), 2) + r.shape:
+                ctx.violation('C09/zernike_nm_der_seq/shape', f'zernike_nm_der_seq returned shape {got.shape}', desc)
+                continue
+            for row, (n, m) in enumerate(lst):
+                if (n, m, norm) not in oracle:
+                    with quiet():
+                        oracle[(n, m, norm)] = zernike_oracle(zernike_nm, n, m, r, t, norm)
+                (rr, ur, rs, fs), (rt_, ut, ts, fs2) = oracle[(n, m, norm)]
+                judge('zernike_nm_der_seq', got[row, 0], rr, ur, f'C09/zernike_nm_der_seq/dr/{mclass(m)}', 'zernike_nm_der_seq: radial row is not d/dr of zernike_nm for the term requested at that position', desc,
+                      refsup=rs, fsup=fs, dscale=2.0, nm=(n, m), row=row)
+                judge('zernike_nm_der_seq', got[row, 1], rt_, ut, f'C09/zernike_nm_der_seq/dt/{mclass(m)}', 'zernike_nm_der_seq: azimuthal row is not d/dt of zernike_nm for the term requested at that position', desc,
+                      refsup=ts, fsup=fs2, dscale=1.0, nm=(n, m), row=row)
+
+
 def run_hardening(ctx, counter):
     def mine():
         counter[0] += 1
@@ -2024,6 +2339,16 @@ def run_hardening(ctx, counter):
     for part in range(hp):
         if mine():
             high_order_units(ctx, part, hp)
+    # hardening pass 3: classes G, H, I
+    for fn in (scale_units, special_parameter_units, special_point_units, ordering_units):
+        if mine():
+            fn(ctx)
+            check_kept()
+    lp = ctx.pick(4, 16)
+    for part in range(lp):
+        if mine():
+            coef_layout_units(ctx, part, lp)
+            check_kept()
 
 
 # ------------------------------------------------------------------------------------------ driver
